@@ -154,7 +154,8 @@ def run(rep):
         if not f["name"].endswith("detail::threshold_impl"):
             continue
         rep.count("threshold_impl")
-        calls = R.calls_in(f["body"], lambda n: n == "boost::gil::static_transform")
+        g = R.canonize(f)           # $0 source view, $1 destination view, $2 functor; loop variables #k; row iterators inlined
+        calls = R.calls_in(g["body"], lambda n: n == "boost::gil::static_transform")
         key = "T2:threshold_impl"
         if len(calls) != 1:
             rep.violation("T2-apply", key, R.fn_where(f), {"problem": "%d static_transform calls" % len(calls)})
@@ -162,15 +163,15 @@ def run(rep):
         call, path = calls[0]
         a = [R.key(x) for x in call["args"]]
         gs = R.guards(path)
-        need = [("<", "x", "src_view.width()"), (">=", "x", "0"), ("<", "y", "src_view.height()"), (">=", "y", "0")]
-        miss = [n for n in need if not R.has_atom(gs, *n)]
-        decls = {dd["name"]: R.key(dd.get("init")) for dn, _ in R.find(f["body"], lambda x: x.get("k") == "Decl") for dd in dn["decls"] if dd.get("name")}
-        ok = a[0] == "src_it[x]" and a[1] == "dst_it[x]" and a[2] == f["params"][2]["name"] and not miss and \
-            decls.get("src_it") == "src_view.row_begin(y)" and decls.get("dst_it") == "dst_view.row_begin(y)"
-        if ok:
+        loops = [x for x, fld, _ in path if x.get("k") == "For" and fld == "body"]
+        ok = len(loops) == 2 and R.counts_up(loops[0], "$0.height()") and R.counts_up(loops[1], "$0.width()")
+        yv, xv = (R.for_shape(loops[0])[0], R.for_shape(loops[1])[0]) if len(loops) == 2 else (None, None)
+        want = ["$0.row_begin(%s)[%s]" % (yv, xv), "$1.row_begin(%s)[%s]" % (yv, xv), "$2"]
+        # iterators that are advanced by hand would stay named (%k) and not match
+        if ok and a == want:
             rep.ok("T2-apply", key + ":" + f["full"][-30:], {"args": a})
         else:
-            rep.violation("T2-apply", key, R.fn_where(f, call), {"args": a, "missing_guards": miss, "src_it": decls.get("src_it"), "dst_it": decls.get("dst_it")})
+            rep.violation("T2-apply", key, R.fn_where(f, call), {"args": a, "expected": want, "loops": [R.for_shape(l) for l in loops]})
     rep.floor("threshold_impl", 2)
     # ---------------------------------------------------------------- T3 otsu divisions
     rep.rule("T3 otsu_impl: every division/modulo has a non-zero literal divisor or is dominated by a non-zero test of the divisor")
